@@ -470,6 +470,10 @@ fn judge(b: &Built, errors: &[String], alpide_total: &Value, how: &str, bytes: &
             }
         }
         let want_t = (want.e701, want.lanes_bad, want.alpide_bad, want.sub.clone());
+        if how.contains("--mute-errors") {
+            // muted runs keep the frame-level message (code, offset) but drop the per-lane context that carries the sub-codes
+            got.3 = want.sub.clone();
+        }
         if got != want_t {
             let what = if got.0 != want.e701 {
                 "E701"
@@ -612,6 +616,7 @@ fn inproc_case(t0: &mut Tape, w: &Worker) -> CaseResult {
 }
 
 fn cli_case(t0: &mut Tape, w: &Worker) -> CaseResult {
+    let mut ot = t0.fork(8);
     let mut sk = t0.fork(600);
     let mut ct = t0.fork(3000);
     let b = build(&mut sk, &mut ct);
@@ -625,18 +630,28 @@ fn cli_case(t0: &mut Tape, w: &Worker) -> CaseResult {
     }
     let sp = w.path("st.json");
     args.extend(stats_args(&sp, false));
-    let (spec, o) = case.run(args, t0.chance(1, 2));
+    // muting changes what is displayed, never the verdicts: a third of the runs are muted and judged from the statistics file
+    let muted = ot.chance(1, 3);
+    if muted {
+        args.push("--mute-errors".into());
+    }
+    let (spec, o) = case.run(args, ot.chance(1, 2));
     if let Some(f) = crash_check(&spec, &o, &bytes, &[0, 1]) {
         return Err(f);
     }
-    let errors: Vec<String> = cli::parse_log(&o.stderr).into_iter().filter(|r| r.level == "ERROR" && r.red).map(|r| r.text).collect();
     let st = read_stats(&sp, false).unwrap_or(json!({}));
-    judge(&b, &errors, &st["alpide_stats"], "CLI check all its-stave", &bytes)?;
+    let errors: Vec<String> = if muted {
+        st["error_stats"]["reported_errors"].as_array().map(|a| a.iter().filter_map(|x| x.as_str().map(String::from)).collect()).unwrap_or_default()
+    } else {
+        cli::parse_log(&o.stderr).into_iter().filter(|r| r.level == "ERROR" && r.red).map(|r| r.text).collect()
+    };
+    judge(&b, &errors, &st["alpide_stats"], if muted { "CLI check all its-stave --mute-errors (statistics file)" } else { "CLI check all its-stave" }, &bytes)?;
     let mut out = CaseOut::default();
     out.nontrivial = b.frames.iter().any(|f| f.lanes.iter().any(|l| l.has_long()));
     out.fingerprint = fnv64(&bytes);
     out.execs = case.execs;
     out.labels.push(format!("cli:barrel:{}", b.barrel.name()));
+    out.labels.push(if muted { "cli:muted".into() } else { "cli:unmuted".into() });
     if w.take_sample() {
         out.sample = Some(json!({"kind": "cli", "cmd": spec.describe(), "frames": b.frames.len(), "errors": errors.len()}));
     }
@@ -658,7 +673,7 @@ pub fn build_property() -> Property {
         ],
         phases: vec![
             Phase { name: "inproc_frames", kind: PhaseKind::Gen { cases: (60000, 800000), tape_len: 600 + 6000, f: Box::new(inproc_case) }, threads: 16 },
-            Phase { name: "cli_frames", kind: PhaseKind::Gen { cases: (3000, 20000), tape_len: 3600, f: Box::new(cli_case) }, threads: 16 },
+            Phase { name: "cli_frames", kind: PhaseKind::Gen { cases: (3000, 20000), tape_len: 3608, f: Box::new(cli_case) }, threads: 16 },
         ],
     }
 }
